@@ -1020,3 +1020,28 @@ def primary_random(rng, count):
         reflen = R[-1] + 1 + rng.choice([0, rng.randrange(0, 30000), 400000])
         yield (f"PRIMARY res={res} blur={bl} mpd={mpd} count={rng.choice([1, 2, 3, 3, 5])} rev={1 if rev else 0} "
                f"REF={mapstr(1, reflen, 0, R)} QRY={mapstr(2, qlen, 0, qq)}")
+
+
+def primary_degenerate(rng, count):
+    """primary stage on molecules that barely fit: a whole contig against itself, a molecule one or two correlation
+    bins shorter than the labelled part of the reference, one- and two-label molecules, tiny references"""
+    for _ in range(count):
+        res, bl = rng.choice([(1400, 1), (1400, 1), (700, 2), (2000, 0), (5000, 1)])
+        n = rng.choice([1, 2, 3, 8, 30])
+        R = rand_map(rng, n, rng.choice([3000, 9000]), 500)
+        R = [p - R[0] + rng.choice([0, 0, rng.randrange(0, 3000)]) for p in R]
+        c = rng.random()
+        if c < 0.5:
+            Q = [p - R[0] for p in R]                       # the contig itself
+        elif c < 0.8 and len(R) > 1:
+            Q = [p - R[0] for p in R[:-1]]
+            Q = Q + [Q[-1] + max(1, (R[-1] - R[-2]) - rng.choice([0, res, 2 * res, 3 * res]))] if rng.random() < 0.6 else Q
+            Q = sorted(set(q for q in Q if q >= 0))
+        else:
+            Q = [0] + sorted(rng.randrange(1, max(2, R[-1] - R[0] + 1)) for _ in range(rng.choice([0, 1, 4])))
+        qlen = Q[-1] + 1
+        rev = rng.random() < 0.5
+        qq = [qlen - 1 - q for q in reversed(Q)] if rev else Q
+        reflen = R[-1] + 1 + rng.choice([0, 0, rng.randrange(0, 5000)])
+        yield (f"PRIMARY res={res} blur={bl} mpd={rng.choice([20000, res, 3 * res])} count={rng.choice([1, 3, 3, 6])} rev={1 if rev else 0} "
+               f"REF={mapstr(1, reflen, 0, R)} QRY={mapstr(2, qlen, 0, qq)}")
